@@ -505,6 +505,42 @@ def _keep(run, P):
                 bad_path_end = n
                 continue
             stack.append(t)
+    # ... and disposes of it once: after a disposal no second one before the next iteration
+    twice = None
+    for d0 in disposal:
+        stack2 = [t for t, lab in g.succ[d0] if lab not in ("exc", "raise", "reraise")]
+        seen2 = set()
+        while stack2:
+            n2 = stack2.pop()
+            if n2 in seen2 or n2 is head or n2 is g.exit:
+                continue
+            seen2.add(n2)
+            if n2 in disposal and n2 is not d0:
+                twice = (d0, n2)
+                break
+            stack2.extend(t for t, lab in g.succ[n2] if lab not in ("exc", "raise", "reraise"))
+        if twice:
+            break
+    run.ob("C06.keep", f, twice[1].ast if twice else pops[0].ast, twice is None,
+           construct=f"no path disposes of '{nxt}' twice"
+                     + (f" ({norm(twice[0].ast, 40)} and then {norm(twice[1].ast, 40)})" if twice else ""),
+           why="a child that is pushed back (its children spliced into the work-list) and also "
+               "kept runs its statements twice")
+    # the loop that skips leading null children re-binds what it tests on every path
+    for wl in [n_ for n_ in ast.walk(f.node) if isinstance(n_, ast.While)
+               and isinstance(n_.test, ast.Call) and dotted(n_.test.func) == "isinstance"
+               and n_.test.args and isinstance(n_.test.args[0], ast.Name)]:
+        v_ = wl.test.args[0].id
+        hd = g.node_of(wl)
+        rebinds = [n_ for n_ in g.nodes if n_.kind == "stmt" and isinstance(n_.ast, ast.Assign)
+                   and any(isinstance(t_, ast.Name) and t_.id == v_ for t_ in n_.ast.targets)
+                   and any(n_.ast is y for b_ in wl.body for y in ast.walk(b_))]
+        body_first = [t for t, lab in g.succ[hd] if lab == "T"]
+        back = g.reachable(body_first, avoid=rebinds, follow_exc=False, include_start=True)
+        run.ob("C06.keep", f, wl, bool(rebinds) and hd not in back,
+               construct=f"while isinstance({v_}, ...): every path back to the test re-binds '{v_}'",
+               why="a block whose first child is a null node would otherwise never leave the loop: "
+                   "simplification does not terminate")
     run.ob("C06.keep", f, pops[0].ast, not reach_bad,
            construct=f"every path from '{norm(pops[0].ast)}' to the next iteration "
                      f"disposes of '{nxt}'",
